@@ -23,7 +23,7 @@ ASSUMPTIONS = ['energies and overlaps come from a fixed well-conditioned grid (n
                'eigen-equation residuals are compared relative to |G(t)| |v| (1e-8); exact-spectrum values relative (1e-6) for states '
                'whose eigenvalue is above 1e-8 of the largest one']
 EXHAUSTIVE = True
-REPEAT = 2      # every case is evaluated twice in the same process: the second verdict must equal the first (call-history oracle)
+REPEAT = 1 if os.environ.get('VERIF_TIER') == 'thorough' else 2      # quick tier: every case twice in the same process (call-history oracle); the long thorough tier runs each case once
 CHUNK = 1
 
 ENERGIES = [0.20, 0.35, 0.52, 0.71, 0.93]
